@@ -3,6 +3,7 @@ package main
 import (
 	"errors"
 	"sync"
+	"time"
 
 	"github.com/openGemini/openGemini/engine"
 	"github.com/openGemini/openGemini/lib/metaclient"
@@ -41,6 +42,11 @@ type recStorage struct {
 	gate    chan struct{} // if non-nil, every Write waits for one token before applying
 	failAll bool
 	entered chan struct{} // signalled when a Write has entered (before the gate)
+	// value-based hold: an apply that carries one of these values waits until holdRelease() is true (or holdMax passed)
+	holdVals    map[int64]bool
+	holdRelease func() bool
+	holdMax     time.Duration
+	held        int // applies that were held
 }
 
 var errInjected = errors.New("injected apply failure")
@@ -59,6 +65,28 @@ func (s *recStorage) Write(db, rp, mst string, ptId uint32, shardID uint64, writ
 }
 
 func (s *recStorage) WriteDataFunc(db, rp string, ptId uint32, shardID uint64, rows []influx.Row, binaryRows []byte, snp *raftlog.SnapShotter) error {
+	s.mu.Lock()
+	hv, rel, hmax := s.holdVals, s.holdRelease, s.holdMax
+	s.mu.Unlock()
+	if hv != nil && rel != nil {
+		hold := false
+		for i := range rows {
+			for _, f := range rows[i].Fields {
+				if f.Key == "v" && hv[int64(f.NumValue)] {
+					hold = true
+				}
+			}
+		}
+		if hold {
+			s.mu.Lock()
+			s.held++
+			s.mu.Unlock()
+			end := time.Now().Add(hmax)
+			for !rel() && time.Now().Before(end) {
+				time.Sleep(5 * time.Millisecond)
+			}
+		}
+	}
 	s.mu.Lock()
 	defer s.mu.Unlock()
 	if s.lww == nil {
